@@ -37,7 +37,9 @@ def gen_program(rng, idx, adversarial):
         elif r < 0.20 and cur != "bss":
             used_org += rng.choice([0x100, 0x1000, 0x10000, 0x234])
             base = {"code": 0, "data": 0x80000}[cur]
-            lines.append((label, f".ORG {base + used_org:#x}", ("O", base + used_org), 0))
+            # the literal is written in hexadecimal or in decimal (both are number literals of the grammar)
+            lit = f"{base + used_org:#x}" if rng.random() < 0.6 else str(base + used_org)
+            lines.append((label, f".ORG {lit}", ("O", base + used_org), 0))
         elif r < 0.25 and adversarial:
             lines.append((label, f".ORG {rng.choice(labels)}", ("Y", None), 0))
         elif r < 0.70 and cur == "code":
